@@ -156,7 +156,8 @@ func H_C16_client() {
 	}
 	if sm.state == hotRestartState {
 		acksBefore := len(c16Wire)
-		sm.checkHotRestart()
+		// the watcher goroutine the manager started when it entered the state runs now
+		vfRunGoroutines()
 		vfAssert(sm.state != hotRestartState, "C16.manager-leaves-hot-restart-state")
 		if moved == S {
 			vfAssert(len(c16Wire) == acksBefore+S, "C16.one-ack-per-session")
